@@ -287,12 +287,19 @@ class AutoSerialize:
                 self._recursive_save(self, root, skip_names, skip_types, compressors)
                 write_skip_metadata(root)
                 # Zip up all files in tempdir
-                with ZipFile(path, mode="w") as zf:
-                    for dirpath, _, filenames in os.walk(tmpdir):
-                        for filename in filenames:
-                            full_path = os.path.join(dirpath, filename)
-                            rel_path = os.path.relpath(full_path, tmpdir)
-                            zf.write(full_path, arcname=rel_path)
+                try:
+                    with ZipFile(path, mode="w") as zf:
+                        for dirpath, _, filenames in os.walk(tmpdir):
+                            for filename in filenames:
+                                full_path = os.path.join(dirpath, filename)
+                                rel_path = os.path.relpath(full_path, tmpdir)
+                                zf.write(full_path, arcname=rel_path)
+                except BaseException:
+                    # a truncated archive is still a valid zip that would load with attributes
+                    # silently missing: do not leave it behind
+                    if os.path.exists(path):
+                        os.remove(path)
+                    raise
         elif store == "dir":
             # Directory mode requires no extension
             if os.path.splitext(path)[1]:
@@ -300,10 +307,16 @@ class AutoSerialize:
                     f"Expected a directory path for store='dir', but got file-like path '{path}'"
                 )
             os.makedirs(path, exist_ok=True)
-            store_obj = LocalStore(path)
-            root = zarr.group(store=store_obj, overwrite=True)
-            self._recursive_save(self, root, skip_names, skip_types, compressors)
-            write_skip_metadata(root)
+            try:
+                store_obj = LocalStore(path)
+                root = zarr.group(store=store_obj, overwrite=True)
+                self._recursive_save(self, root, skip_names, skip_types, compressors)
+                write_skip_metadata(root)
+            except BaseException:
+                # a partially written directory store would load with attributes silently
+                # missing: remove it (the target did not exist before, see the check above)
+                shutil.rmtree(path, ignore_errors=True)
+                raise
         else:
             raise ValueError(f"Unknown store type: {store}")
 
